@@ -602,6 +602,22 @@ class StateEngine(object):
         execution = context["Execution"]
         execution_arn = context["Execution"]["Id"]
 
+        """
+        The output of a State that ends the execution is subject to the same
+        262144 character quota that change_state applies to the output of a
+        State that has a Next State. If it is exceeded we fail the execution.
+        https://docs.aws.amazon.com/step-functions/latest/dg/limits.html
+        """
+        if not execution_failed and len(output_as_string) > MAX_DATA_LENGTH:
+            error_message = ("{} an error occurred while executing the state "
+                             "\"{}\": A result with a size exceeding the maximum "
+                             "number of characters service limit "
+                             "was returned.").format(execution_arn, state["Name"])
+            self.logger.error(error_message)
+            data = {"Error": "States.DataLimitExceeded", "Cause": error_message}
+            execution_failed = True
+            output_as_string = json.dumps(data)
+
         # Stepfunctions don't transition to StateExited if the execution fails.
         if not execution_failed:
             self.update_execution_history(
